@@ -35,7 +35,12 @@ func pick[T any](r *rand.Rand, xs []T) T { return xs[r.Intn(len(xs))] }
 
 func genSettings(r *rand.Rand, profile string) *node.Settings {
 	s := node.DefaultSettings()
-	s.Timeout = 250 * time.Millisecond
+	// the per-neighbour timeout is REAL time: generous outside the faults profile so that a loaded machine does not
+	// turn an answered request into a timeout (silent neighbours then cost this much each)
+	s.Timeout = 1500 * time.Millisecond
+	if profile == "faults" {
+		s.Timeout = 250 * time.Millisecond
+	}
 	s.Interval = pick(r, []int64{int64(time.Second), int64(time.Minute), 5 * int64(time.Minute)})
 	s.MinFee = pick(r, []uint64{1, 2, 1000})
 	s.BlocksLimit = pick(r, []uint64{3, 4, 5, 7, 100, 100})
